@@ -100,3 +100,5 @@ LEVEL = {
     'technique': 'Coq proof (DistSet invariants, soundness on every well-formed graph, exactness for small filters) + replay of '
                  'real graph searches judged by the soundness / exact-kNN checkers',
 }
+
+CFG['rule'] = CFG['rule'] + ' ' + 'Additions: every sixth history uses a pool of 60-110 points (a collection larger than every search window, with id pre-filters between limit and window size) and every fourth euclidean history builds a chain-shaped graph; on dot / cosine indexes one update in three sets a vector at index distance exactly 0 from the stored one without being equal to it (orthogonal, zero, dot product 1 where exact in float32) or the stored vector again; update requests may name one point twice ([remove vec],[set vec]; in every third history also the known-finding order [set vec],[remove vec], tagged XNote 777).'
